@@ -67,6 +67,7 @@ static CO_ERR COTSdoIdWrite(struct CO_OBJ_T *obj, struct CO_NODE_T *node, void *
     uint32_t  newval;
     uint32_t  curval;
     uint8_t   num;
+    CO_IF_FRM *frm;
 
     CO_UNUSED(node);
     ASSERT_PTR_ERR(obj, CO_ERR_BAD_ARG);
@@ -81,7 +82,10 @@ static CO_ERR COTSdoIdWrite(struct CO_OBJ_T *obj, struct CO_NODE_T *node, void *
         if ((newval & CO_SDO_ID_OFF) != 0) {
             err = uint32->Write(obj, node, &newval, sizeof(newval));
             if (err == CO_ERR_NONE) {
+                /* the request in work may have come in via this server */
+                frm = node->Sdo[num].Frm;
                 COSdoReset(node->Sdo, num, node);
+                node->Sdo[num].Frm = frm;
             }
         } else {
             return (CO_ERR_OBJ_RANGE);
